@@ -131,11 +131,17 @@ def minres_systems(quick, seed):
             [1, 3, None])
     # (B) the convergence test every 10th step: sizes that reach iteration 10 / 20 / 30, tolerance settings,
     #     a zero column (NaN in the mean: the test never fires), well-conditioned so that whole runs are compared
-    for n in ([8, 12, 20, 40] if quick else [7, 8, 9, 12, 18, 20, 28, 40]):
+    #     The family is chosen so that the tolerance setting DECIDES the number of bodies (a run in which
+    #     minres_tolerance is ignored differs): tolerance 1 stops uniform/10 at body 10 although the default 1e-4 would
+    #     go on; tolerance 1e-10 keeps uniform/4 running although the default would stop at body 10.
+    fam_tab = {(None, "nn"): [("uniform", 10.0), ("few4", 1e2)], (None, "nzn"): [("few4", 1e2), ("uniform", 4.0)],
+               (1.0, "nn"): [("uniform", 10.0), ("uniform", 10.0)], (1.0, "nzn"): [("uniform", 4.0), ("few4", 1e2)],
+               (1e-10, "nn"): [("uniform", 4.0), ("uniform", 4.0)], (1e-10, "nzn"): [("few4", 1e2), ("uniform", 10.0)]}
+    for ni, n in enumerate([8, 12, 20, 40] if quick else [7, 8, 9, 12, 18, 20, 28, 40]):
         for tol in [None, 1.0, 1e-10]:
             for cols in ["nn", "nzn"]:
                 i += 1
-                fam, kappa = [("uniform", 10.0), ("few4", 1e2), ("uniform", 4.0)][i % 3]
+                fam, kappa = fam_tab[(tol, cols)][ni % 2]
                 sk = [{"kind": "none"}, {"kind": "vec", "Q": 2}, {"kind": "zero-first", "Q": 3}][i % 3]
                 spec = {"n": n, "cols": cols, "batch": [] if i % 2 else [2], "fam": fam, "kappa": kappa, "shifts": sk,
                         "value": -1.0 if sk["kind"] == "zero-first" else None, "pre": "none",
